@@ -152,36 +152,40 @@ Proof.
   - rewrite sof55_1, sos_1. cbn [app read_marker skip_ff Z.eqb Pos.eqb length].
     rewrite seg_sof_9.
     unfold parse_sof. eval_zlen. cbn [Z.ltb Z.compare Pos.compare Pos.compare_cont]. eval_zn.
+    cbn [dst_init d_w d_h Z.eqb negb orb].
     rewrite Hwsplit, Hhsplit, Hbd8, Hmv.
     destruct (Z.leb_spec w 0); [lia|]. destruct (Z.leb_spec h 0); [lia|]. cbn [orb negb Z.eqb Pos.eqb andb].
+    destruct (Z.ltb_spec bd 2); [lia|]. destruct (Z.gtb_spec bd 16); [lia|]. cbn [orb].
     destruct dpk.
     + (* lossless decoder: traits from SOF, NEAR of the SOS ignored (it is 0) *)
       specialize (Hd0 eq_refl). subst near.
-      unfold ll_init_params. destruct (Z.eqb_spec (2 ^ bd - 1 + 1) 0); [lia|].
+      unfold ll_init_params.
       cbn [Z.eqb orb]. rewrite (ccp_eta (2 ^ bd - 1) 0 64).
       rewrite seg_sos_6. unfold parse_sos. eval_zlen. cbn [Z.ltb Z.compare Pos.compare Pos.compare_cont Z.sub Z.add Z.opp Z.pos_sub Pos.pred_double]. eval_zn.
       cbn [d_comps Z.eqb Pos.eqb negb andb Z.gtb Z.compare Pos.compare Pos.compare_cont d_par].
       eexists. split; [|reflexivity]. unfold frame_of. cbn. auto.
     + rewrite seg_sos_6. unfold parse_sos. eval_zlen. cbn [Z.ltb Z.compare Pos.compare Pos.compare_cont Z.sub Z.add Z.opp Z.pos_sub Pos.pred_double]. eval_zn.
       cbn [d_comps Z.eqb Pos.eqb negb andb Z.gtb Z.compare Pos.compare Pos.compare_cont d_maxval d_reset d_t1 d_t2 d_t3 dst_init].
-      rewrite Hn8. destruct (Z.eqb_spec (2 ^ bd - 1 + 1) 0); [lia|].
+      rewrite Hn8.
       rewrite (ccp_eta (2 ^ bd - 1) near 64).
       eexists. split; [|reflexivity]. unfold frame_of. cbn. auto.
   - rewrite sof55_3, sos_3. cbn [app read_marker skip_ff Z.eqb Pos.eqb length].
     rewrite seg_sof_15.
     unfold parse_sof. eval_zlen. cbn [Z.ltb Z.compare Pos.compare Pos.compare_cont]. eval_zn.
+    cbn [dst_init d_w d_h Z.eqb negb orb].
     rewrite Hwsplit, Hhsplit, Hbd8, Hmv.
     destruct (Z.leb_spec w 0); [lia|]. destruct (Z.leb_spec h 0); [lia|]. cbn [orb negb Z.eqb Pos.eqb andb].
+    destruct (Z.ltb_spec bd 2); [lia|]. destruct (Z.gtb_spec bd 16); [lia|]. cbn [orb].
     destruct dpk.
     + specialize (Hd0 eq_refl). subst near.
-      unfold ll_init_params. destruct (Z.eqb_spec (2 ^ bd - 1 + 1) 0); [lia|].
+      unfold ll_init_params.
       cbn [Z.eqb orb]. rewrite (ccp_eta (2 ^ bd - 1) 0 64).
       rewrite seg_sos_10. unfold parse_sos. eval_zlen. cbn [Z.ltb Z.compare Pos.compare Pos.compare_cont Z.sub Z.add Z.opp Z.pos_sub Pos.pred_double]. eval_zn.
       cbn [d_comps Z.eqb Pos.eqb negb andb Z.gtb Z.compare Pos.compare Pos.compare_cont d_par].
       eexists. split; [|reflexivity]. unfold frame_of. cbn. auto.
     + rewrite seg_sos_10. unfold parse_sos. eval_zlen. cbn [Z.ltb Z.compare Pos.compare Pos.compare_cont Z.sub Z.add Z.opp Z.pos_sub Pos.pred_double]. eval_zn.
       cbn [d_comps Z.eqb Pos.eqb negb andb Z.gtb Z.compare Pos.compare Pos.compare_cont d_maxval d_reset d_t1 d_t2 d_t3 dst_init].
-      rewrite Hn8. destruct (Z.eqb_spec (2 ^ bd - 1 + 1) 0); [lia|].
+      rewrite Hn8.
       rewrite (ccp_eta (2 ^ bd - 1) near 64).
       eexists. split; [|reflexivity]. unfold frame_of. cbn. auto.
 Qed.
@@ -281,43 +285,46 @@ Qed.
 (* what an encoder call that succeeds has produced *)
 Lemma encode_image_ok : forall pk w h comps bd near pixelData stream,
   encode_image pk w h comps bd near pixelData = Ok stream ->
-  1 <= w /\ 1 <= h /\ (comps = 1 \/ comps = 3) /\ 2 <= bd <= 16 /\
+  1 <= w <= 65535 /\ 1 <= h <= 65535 /\ (comps = 1 \/ comps = 3) /\ 2 <= bd <= 16 /\
   (pk = PkNear -> 0 <= near <= 255) /\
-  zlen (pixelsToIntegers bd pixelData) = w * h * comps /\
   exists ops, encode_scan_ops pk (jls_params bd near) w h comps (pixelsToIntegers bd pixelData) = Ok ops /\
               stream = [255; 216] ++ write_sof55 w h comps bd ++ write_sos comps near ++ gw_run ops ++ [255; 217].
 Proof.
   intros pk w h comps bd near px stream H. unfold encode_image in H.
   destruct (Z.leb_spec w 0); [discriminate|]. destruct (Z.leb_spec h 0); [discriminate|]. cbn [orb] in H.
-  destruct (Z.eqb_spec comps 1) as [E1|N1]; destruct (Z.eqb_spec comps 3) as [E3|N3]; cbn [negb andb] in H;
-    try discriminate;
-    (destruct (Z.ltb_spec bd 2); [discriminate|]; destruct (Z.gtb_spec bd 16); [discriminate|]; cbn [orb] in H;
-     destruct pk;
-     [ destruct (negb (zlen (pixelsToIntegers bd px) =? w * h * comps)) eqn:El; [discriminate|];
-       destruct (encode_scan_ops PkLossless (jls_params bd near) w h comps (pixelsToIntegers bd px)) as [ops| | |] eqn:Eo;
-       try discriminate; inversion H; subst stream;
-       apply negb_false_iff in El; apply Z.eqb_eq in El;
-       repeat split; try lia; try (intro Hc; discriminate); auto; exists ops; split; reflexivity
-     | destruct (Z.ltb_spec near 0); [discriminate|]; destruct (Z.gtb_spec near 255); [discriminate|]; cbn [orb] in H;
-       destruct (negb (zlen (pixelsToIntegers bd px) =? w * h * comps)) eqn:El; [discriminate|];
-       destruct (encode_scan_ops PkNear (jls_params bd near) w h comps (pixelsToIntegers bd px)) as [ops| | |] eqn:Eo;
-       try discriminate; inversion H; subst stream;
-       apply negb_false_iff in El; apply Z.eqb_eq in El;
-       repeat split; try lia; auto; exists ops; split; reflexivity ]).
+  assert (Hc : comps = 1 \/ comps = 3).
+  { destruct (Z.eqb_spec comps 1); [auto|]. destruct (Z.eqb_spec comps 3); [auto|]. discriminate. }
+  assert (Hcc : negb (comps =? 1) && negb (comps =? 3) = false) by (destruct Hc as [-> | ->]; reflexivity).
+  rewrite Hcc in H.
+  destruct (Z.ltb_spec bd 2); [discriminate|]. destruct (Z.gtb_spec bd 16); [discriminate|]. cbn [orb] in H.
+  assert (Hn : pk = PkNear -> 0 <= near <= 255).
+  { intro E. subst pk. destruct (Z.ltb_spec near 0); [discriminate|]. destruct (Z.gtb_spec near 255); [discriminate|]. lia. }
+  assert (Hnn : match pk with PkLossless => false | PkNear => (near <? 0) || (near >? 255) end = false).
+  { destruct pk; [reflexivity|]. specialize (Hn eq_refl).
+    destruct (Z.ltb_spec near 0); [lia|]. destruct (Z.gtb_spec near 255); [lia|]. reflexivity. }
+  rewrite Hnn in H.
+  destruct (Z.gtb_spec w 65535); [discriminate|]. destruct (Z.gtb_spec h 65535); [discriminate|]. cbn [orb] in H.
+  destruct (zlen px <? w * h * comps * Z.quot (bd + 7) 8); [discriminate|].
+  destruct (encode_scan_ops pk (jls_params bd near) w h comps (pixelsToIntegers bd px)) as [ops| | |] eqn:Eo;
+    try discriminate.
+  inversion H; subst stream.
+  split; [lia|]. split; [lia|]. split; [exact Hc|]. split; [lia|]. split; [exact Hn|].
+  exists ops. split; reflexivity.
 Qed.
 
 (* jls_roundtrip (C03): decoding the lossless encoder's output returns exactly the input samples
    with the same width, height, component count and precision — every image with 1 or 3
    components, precision 2..16, samples below 2^P, dimensions up to 65535. *)
 Theorem jls_roundtrip : forall w h comps P pixelData stream lim,
-  w <= 65535 -> h <= 65535 -> w * h * comps <= lim ->
+  w * h * comps <= lim ->
+  zlen (pixelsToIntegers P pixelData) = w * h * comps ->
   Forall (in_range P) (pixelsToIntegers P pixelData) ->
   jls_encode w h comps P pixelData = Ok stream ->
   jls_decode lim stream =
   Ok (mkDecoded (integersToPixels P (2 ^ P - 1) (pixelsToIntegers P pixelData)) w h comps P 0).
 Proof.
-  intros w h comps P px stream lim Hw Hh Hlim Hr Henc.
-  destruct (encode_image_ok _ _ _ _ _ _ _ _ Henc) as (Hw1 & Hh1 & Hc & HP & _ & Hlen & ops & Hops & Hs).
+  intros w h comps P px stream lim Hlim Hlen Hr Henc.
+  destruct (encode_image_ok _ _ _ _ _ _ _ _ Henc) as (Hw1 & Hh1 & Hc & HP & _ & ops & Hops & Hs).
   subst stream.
   assert (Hn : 0 <= near_max P).
   { unfold near_max. pose proof (pow2_bounds P HP). assert (0 <= (2 ^ P - 1) / 2) by (apply Z.div_pos; lia). lia. }
@@ -331,15 +338,16 @@ Qed.
    from the near-lossless encoder's output, samples within NEAR of the source and inside
    [0, 2^P - 1], reports the NEAR requested and the original geometry. *)
 Theorem jlsn_bound : forall w h comps P near pixelData stream lim,
-  w <= 65535 -> h <= 65535 -> w * h * comps <= lim -> near <= near_max P ->
+  w * h * comps <= lim -> near <= near_max P ->
+  zlen (pixelsToIntegers P pixelData) = w * h * comps ->
   Forall (in_range P) (pixelsToIntegers P pixelData) ->
   jlsn_encode w h comps P near pixelData = Ok stream ->
   exists recon,
     jlsn_decode lim stream = Ok (mkDecoded (integersToPixels P (2 ^ P - 1) recon) w h comps P near) /\
     Forall2 (near_close near) (pixelsToIntegers P pixelData) recon /\ Forall (in_range P) recon.
 Proof.
-  intros w h comps P near px stream lim Hw Hh Hlim Hnm Hr Henc.
-  destruct (encode_image_ok _ _ _ _ _ _ _ _ Henc) as (Hw1 & Hh1 & Hc & HP & Hnr & Hlen & ops & Hops & Hs).
+  intros w h comps P near px stream lim Hlim Hnm Hlen Hr Henc.
+  destruct (encode_image_ok _ _ _ _ _ _ _ _ Henc) as (Hw1 & Hh1 & Hc & HP & Hnr & ops & Hops & Hs).
   subst stream. specialize (Hnr eq_refl).
   apply (stream_decode PkNear PkNear w h comps P near _ ops lim
            (mkHeaderOk PkNear w h comps P near HP ltac:(lia) ltac:(lia) Hc Hnr I)
@@ -348,41 +356,44 @@ Qed.
 
 (* NEAR = 0 is exact *)
 Corollary jlsn_near0_exact : forall w h comps P pixelData stream lim,
-  w <= 65535 -> h <= 65535 -> w * h * comps <= lim ->
+  w * h * comps <= lim ->
+  zlen (pixelsToIntegers P pixelData) = w * h * comps ->
   Forall (in_range P) (pixelsToIntegers P pixelData) ->
   jlsn_encode w h comps P 0 pixelData = Ok stream ->
   jlsn_decode lim stream =
   Ok (mkDecoded (integersToPixels P (2 ^ P - 1) (pixelsToIntegers P pixelData)) w h comps P 0).
 Proof.
-  intros w h comps P px stream lim Hw Hh Hlim Hr Henc.
+  intros w h comps P px stream lim Hlim Hlen Hr Henc.
   destruct (encode_image_ok _ _ _ _ _ _ _ _ Henc) as (_ & _ & _ & HP & _).
   assert (Hn : 0 <= near_max P).
   { unfold near_max. pose proof (pow2_bounds P HP). assert (0 <= (2 ^ P - 1) / 2) by (apply Z.div_pos; lia). lia. }
-  destruct (jlsn_bound w h comps P 0 px stream lim Hw Hh Hlim Hn Hr Henc) as (recon & Hdec & Hrel & _).
+  destruct (jlsn_bound w h comps P 0 px stream lim Hlim Hn Hlen Hr Henc) as (recon & Hdec & Hrel & _).
   apply near_close_0_eq in Hrel. subst recon. exact Hdec.
 Qed.
 
 (* C14, cross decoding: each decoder on the other package's NEAR = 0 stream returns the source *)
 Theorem cross_decode_near_of_lossless : forall w h comps P pixelData stream lim,
-  w <= 65535 -> h <= 65535 -> w * h * comps <= lim ->
+  w * h * comps <= lim ->
+  zlen (pixelsToIntegers P pixelData) = w * h * comps ->
   Forall (in_range P) (pixelsToIntegers P pixelData) ->
   jls_encode w h comps P pixelData = Ok stream ->
   jlsn_decode lim stream =
   Ok (mkDecoded (integersToPixels P (2 ^ P - 1) (pixelsToIntegers P pixelData)) w h comps P 0).
 Proof.
-  intros w h comps P px stream lim Hw Hh Hlim Hr Henc.
+  intros w h comps P px stream lim Hlim Hlen Hr Henc.
   rewrite (near0_same_function w h comps P px Hr) in Henc.
   apply (jlsn_near0_exact w h comps P px stream lim); assumption.
 Qed.
 
 Theorem cross_decode_lossless_of_near0 : forall w h comps P pixelData stream lim,
-  w <= 65535 -> h <= 65535 -> w * h * comps <= lim ->
+  w * h * comps <= lim ->
+  zlen (pixelsToIntegers P pixelData) = w * h * comps ->
   Forall (in_range P) (pixelsToIntegers P pixelData) ->
   jlsn_encode w h comps P 0 pixelData = Ok stream ->
   jls_decode lim stream =
   Ok (mkDecoded (integersToPixels P (2 ^ P - 1) (pixelsToIntegers P pixelData)) w h comps P 0).
 Proof.
-  intros w h comps P px stream lim Hw Hh Hlim Hr Henc.
+  intros w h comps P px stream lim Hlim Hlen Hr Henc.
   rewrite <- (near0_same_function w h comps P px Hr) in Henc.
   apply (jls_roundtrip w h comps P px stream lim); assumption.
 Qed.
